@@ -82,6 +82,8 @@ def build_op(spec):
             e["mode"] = "maximise"
     if spec["index"] % 11 == 0 and "-greedy" in op["argv"]:
         op["buggify"] = {"greedy_fail": True}
+    if op["fmt"] == "asm" and "-log" not in op["argv"]:
+        op["argv"].append("-log")
     return op
 
 
@@ -98,30 +100,13 @@ def improves(c, *others):
     return all(o >= 0 for o in others) and any(o > 0 for o in others)
 
 
-def check_op(op):
-    st, res = C.run_child(op)
-    summ = {"evals": 0, "keys": [], "probes": {}, "faults": {}, "sim_s": 0.0, "samples": [], "harness": 0, "inconclusive": 0}
-    if st != "ok" or res["exc"] is not None:
-        summ["inconclusive"] = 1
-        summ["probes"]["run_failed"] = 1
-        return summ, []
-    summ["sim_s"] = res["sim_time"]
-    try:
-        pairs = C.pairs_of(op, res)
-    except ValueError:
-        pairs = None
-    if pairs is None:
-        summ["inconclusive"] = 1
-        return summ, []
+def gate(op, pairs, summ, how):
+    """The per-block rule over aligned (input, emitted) blocks; returns (R4 totals, violations)."""
     desc = op["desc"]
     crit = desc["crit"]
     push0 = desc["push0"]
     viols = []
     tot = {"gas0": 0, "gas1": 0, "size0": 0, "size1": 0, "len0": 0, "len1": 0}
-    for c in res["solver_calls"]:
-        summ["probes"]["peer_" + c["kind"]] = summ["probes"].get("peer_" + c["kind"], 0) + 1
-    for bf in res["records"].get("buggify_fired", []):
-        summ["faults"]["greedy_forced_error"] = summ["faults"].get("greedy_forced_error", 0) + 1
     for path, a, b in pairs:
         summ["evals"] += 1
         try:
@@ -157,10 +142,54 @@ def check_op(op):
                 summ["samples"].append({"argv": op["argv"][1:], "in": AJ.items_to_text(a), "out": AJ.items_to_text(b),
                                         "saved": saved})
         if cls:
+            if how != "direct":
+                cls = cls + [how]
             viols.append({"class": cls + [desc["backend"]],
-                          "detail": "%s: R4 (gas,size,len) in=%s out=%s | in: %s | out: %s | argv %s" % (
-                              path, (g0, s0, l0), (g1, s1, l1), AJ.items_to_text(a), AJ.items_to_text(b), " ".join(op["argv"][1:])),
+                          "detail": "%s (%s output): R4 (gas,size,len) in=%s out=%s | in: %s | out: %s | argv %s" % (
+                              path, how, (g0, s0, l0), (g1, s1, l1), AJ.items_to_text(a), AJ.items_to_text(b), " ".join(op["argv"][1:])),
                           "replay": {"op": op, "block": path}})
+    return tot, viols
+
+
+def check_op(op):
+    st, res = C.run_child(op)
+    summ = {"evals": 0, "keys": [], "probes": {}, "faults": {}, "sim_s": 0.0, "samples": [], "harness": 0, "inconclusive": 0}
+    if st != "ok" or res["exc"] is not None:
+        summ["inconclusive"] = 1
+        summ["probes"]["run_failed"] = 1
+        return summ, []
+    summ["sim_s"] = res["sim_time"]
+    try:
+        pairs = C.pairs_of(op, res)
+    except ValueError:
+        pairs = None
+    if pairs is None:
+        summ["inconclusive"] = 1
+        return summ, []
+    for c in res["solver_calls"]:
+        summ["probes"]["peer_" + c["kind"]] = summ["probes"].get("peer_" + c["kind"], 0) + 1
+    for bf in res["records"].get("buggify_fired", []):
+        summ["faults"]["greedy_forced_error"] = summ["faults"].get("greedy_forced_error", 0) + 1
+    tot, viols = gate(op, pairs, summ, "direct")
+    if "-log" in op["argv"] and not viols:
+        # second step of the history: the log of this run given back with the same input and options
+        # is one more way of producing an output file, and its blocks are held to the same rule
+        from gsim.checks import c11
+        log = res["files"].get(C.log_path(op))
+        if log is not None:
+            files = dict(op["files"])
+            files[C.log_path(op)] = log.decode()
+            rop = c11.replay_op(op, files)
+            st2, res2 = C.run_child(rop)
+            if st2 == "ok" and res2["exc"] is None:
+                try:
+                    pairs2 = C.pairs_of(rop, res2)
+                except ValueError:
+                    pairs2 = None
+                if pairs2 is not None:
+                    summ["probes"]["log_replayed"] = 1
+                    _, v2 = gate(op, pairs2, summ, "from-log")
+                    viols.extend(v2)
     # printed totals
     if "-backend" not in op["argv"]:
         summ["evals"] += 1
